@@ -112,6 +112,9 @@ def cases(ctx):
         yield {"kind": "history", "budget": 3, "hardware": "nv", "transpile": True,
                "ops": [{"op": "new", "q": "a"}, {"op": "flush"}, {"op": "new", "q": "b"}, {"op": "measure", "q": "b", "inplace": False},
                        {"op": "flush"}]}
+    for _ in range(ctx.n(120, 10000)):
+        yield {"kind": "two-apps", "role": rng.choice(["recv", "create"]), "pairs": rng.choice([1, 2]), "a_local": rng.choice([0, 1, 2]),
+               "b_ops": rng.randrange(1, 8), "seed": rng.randrange(2**31)}
     for _ in range(ctx.n(1600, 200000)):
         budget = rng.choice([1, 2, 3, 4, 5])
         hw = rng.choice(["generic", "nv"])
@@ -130,9 +133,72 @@ class _Refused(Exception):
     pass
 
 
+def _two_apps(ctx, case):
+    """Two applications of one host on one controller: while A's subroutine is suspended waiting for its pairs, B allocates,
+    measures and frees qubits; afterwards each connection's active set must equal its own unit module."""
+    import random
+    from netqasm.sdk.epr_socket import EPRSocket
+    from netqasm.sdk.qubit import FutureQubit, Qubit
+    r = random.Random(case["seed"])
+    na = case["pairs"]
+    es = EPRSocket("bob")
+    link = LinkModel([PlannedRequest(case["role"], "K", na, bells=[r.randrange(4) for _ in range(na)])], partners=False)
+    pipe = Pipe(epr_sockets=[es], link=link, max_qubits=4, hardware="generic", script=[0, 1, 1, 0] * 8)
+    ca = pipe.conn
+    cb = pipe.open(max_qubits=3)
+    b_qubits = []
+    done = {"b": False}
+    inner = ca._on_event
+
+    def b_runs():
+        for _ in range(case["b_ops"]):
+            k = r.choice(["new", "new", "measure", "free", "gate"])
+            if k == "new" and len(b_qubits) < 3:
+                b_qubits.append(Qubit(cb))
+            elif k == "measure" and b_qubits:
+                b_qubits.pop(r.randrange(len(b_qubits))).measure()
+            elif k == "free" and b_qubits:
+                b_qubits.pop(r.randrange(len(b_qubits))).free()
+            elif k == "gate" and b_qubits:
+                r.choice(b_qubits).H()
+            if r.random() < 0.5:
+                cb.flush()
+        cb.flush()
+
+    def on_event(ev):
+        if ev[0] == "wait" and not done["b"]:
+            done["b"] = True
+            ctx.count("subroutines_interleaved_with_another_application")
+            b_runs()
+        inner(ev)
+    ca._on_event = on_event
+    try:
+        a_local = [Qubit(ca) for _ in range(case["a_local"])]
+        qs = (es.recv_keep if case["role"] == "recv" else es.create_keep)(na)
+        ca.flush()
+        if not done["b"]:
+            b_runs()
+        for conn, mine, who in ((ca, a_local + list(qs), "A"), (cb, b_qubits, "B")):
+            um = pipe.ex._qubit_unit_modules.get(conn.app_id) or []
+            ctrl = {v for v, p_ in enumerate(um) if p_ is not None}
+            sdk = {q.qubit_id for q in conn.active_qubits if not isinstance(q, FutureQubit)}
+            ctx.count("flushes_compared")
+            if sdk != ctrl:
+                ctx.fail(case, f"application {who} (app id {conn.app_id}): connection.active_qubits IDs {sorted(sdk)} but the controller has virtual "
+                               f"qubits {sorted(ctrl)} allocated for it (its subroutine was suspended while another application ran)")
+                return ctx.case(case, True)
+        ca.close()
+        cb.close()
+    except (hc.ControllerFault, hc.Deadlock, hc.StepLimit) as e:
+        ctx.fail(case, f"two applications on one controller (A waits for {na} pair(s) while B runs {case['b_ops']} operations): {type(e).__name__}: {e}")
+    ctx.case(case, True)
+
+
 def run_case(ctx, case):
     from netqasm.sdk.epr_socket import EPRSocket
     from netqasm.sdk.qubit import FutureQubit, Qubit
+    if case["kind"] == "two-apps":
+        return _two_apps(ctx, case)
     ops = case["ops"]
     plan = []
     import random as _random
